@@ -11,6 +11,13 @@ T4 == ( <<97, 98>> :> B("AB") ) @@ ( <<98>> :> M(<<97>>) ) @@ ( <<120, 120>> :> 
 \* long binding and rules it out from inside: the left-over keys go back IN FRONT of the rest of the macro, in order
 T5 == ( <<97>> :> B("A") ) @@ ( <<97, 120, 98, 97>> :> B("AXBA") ) @@ ( <<98>> :> B("B") ) @@ ( <<120>> :> B("X") )
       @@ ( <<121>> :> M(<<97, 120, 98, 98, 120>>) )
+\* two macro binds, the body of the first (on y) containing the key of the second (on z) followed by more keys: the second
+\* expansion takes the place of its key, IN FRONT of what is left of the first body (a b x  must run A X B... not A B X)
+T6 == ( <<97>> :> B("A") ) @@ ( <<98>> :> B("B") ) @@ ( <<120>> :> B("X") ) @@ ( <<120, 120>> :> B("XX") )
+      @@ ( <<121>> :> M(<<97, 122, 98>>) ) @@ ( <<122>> :> M(<<120, 97>>) )
+Alphabet6 == {97, 120, 121, 122}
+In4z == UNION { [1..k -> Alphabet6] : k \in 0..4 }
+In5z == UNION { [1..k -> Alphabet6] : k \in 0..5 }
 Alphabet5 == {97, 98, 120, 121}
 In4y == UNION { [1..k -> Alphabet5] : k \in 0..4 }
 In5y == UNION { [1..k -> Alphabet5] : k \in 0..5 }
